@@ -335,11 +335,15 @@ class ExprParser(RecursiveDescent):
             shape.append(node)
             if not self.have("COMMA"):
                 break
+        # the whole text must be the shape
+        self.mustbe("EOF")
         self.exit("argument_list", str(shape))
         return shape
 
 def check_expr(expr, trace=False):
-    a = ExprParser(expr, trace=trace).expression()
+    parser = ExprParser(expr, trace=trace)
+    a = parser.expression()
+    parser.mustbe("EOF")
     return a
 
 def check_dimension(dim, attrs, trace=False):
